@@ -125,7 +125,7 @@ type c13WOp struct {
 	H      *c13Herr
 }
 
-// Kind: 0 session, 1 big, 2 e2e, 3 abandoned reads, 4 writes behind a stalled peer
+// Kind: 0 session, 1 big, 2 e2e, 3 abandoned reads, 4 writes behind a stalled peer, 5 wire-marshal, 6 wire-unmarshal
 type c13In struct {
 	Kind     int
 	Honest   bool
@@ -141,6 +141,8 @@ type c13In struct {
 	Inners   [][]byte // abandon / stalled: BytesValue contents, one message per call
 	Reqs     []int    // abandon: per ReadMsg call 0 = runs to completion, 1 = given up before anything arrived
 	Calls    []int    // stalled: per WriteMsg call 0 = completes after the peer resumes, 1 = given up
+	WM       *c13WMsg // wire-marshal (Kind 5): the message
+	WK       int      // wire-unmarshal (Kind 6): message kind; the input bytes are Stream
 }
 
 func c13NewMsg(typ string) proto.Message {
@@ -1505,6 +1507,392 @@ func c13GenMixed(r *rand.Rand) c13In {
 
 // ---------------------------------------------------------------------------------------------
 
+// ---------------------------------------------------------------------------------------------
+// the protobuf wire format of the protocol messages (model/ProtoWire.v): classes wire-marshal
+// (proto.Marshal of generated messages, byte for byte) and wire-unmarshal (proto.Unmarshal of
+// hostile bytes: accept/refuse and the decoded fields)
+
+// one scalar field: I = int64 field with value Z, otherwise a string/bytes field with content B
+type c13FV struct {
+	I bool
+	B []byte
+	Z int64
+}
+
+// K: 0 HandshakeReq, 1 HandshakeResp, 2 PeerInfo, 3 Bid, 4 PeerList, 5 PreConfirmation
+type c13WMsg struct {
+	K      int
+	Vs     []c13FV   // kinds 0-3: the fields in declaration order; kind 5: digest, signature, provider_address
+	Ps     [][]c13FV // kind 4
+	HasBid bool      // kind 5
+	Bid    []c13FV
+}
+
+var c13WireShape = [][]bool{{false, false, false}, {false, false}, {false, false},
+	{false, false, true, false, false, true, true}, nil, {false, false, false}}
+
+func c13WireNew(k int) proto.Message {
+	switch k {
+	case 0:
+		return new(handshakepb.HandshakeReq)
+	case 1:
+		return new(handshakepb.HandshakeResp)
+	case 2:
+		return new(discoverypb.PeerInfo)
+	case 3:
+		return new(preconfpb.Bid)
+	case 4:
+		return new(discoverypb.PeerList)
+	default:
+		return new(preconfpb.PreConfirmation)
+	}
+}
+
+func c13WireShapeOK(vs []c13FV, shape []bool) bool {
+	if len(vs) != len(shape) {
+		return false
+	}
+	for i := range vs {
+		if vs[i].I != shape[i] {
+			return false
+		}
+	}
+	return true
+}
+
+func c13BidProto(vs []c13FV) *preconfpb.Bid {
+	return &preconfpb.Bid{TxHash: string(vs[0].B), BidAmount: string(vs[1].B), BlockNumber: vs[2].Z,
+		Digest: vs[3].B, Signature: vs[4].B, DecayStartTimestamp: vs[5].Z, DecayEndTimestamp: vs[6].Z}
+}
+
+func c13BidVals(b *preconfpb.Bid) []c13FV {
+	return []c13FV{{B: []byte(b.TxHash)}, {B: []byte(b.BidAmount)}, {I: true, Z: b.BlockNumber}, {B: b.Digest},
+		{B: b.Signature}, {I: true, Z: b.DecayStartTimestamp}, {I: true, Z: b.DecayEndTimestamp}}
+}
+
+// nil when the input does not have the shape of its kind (a malformed replay input)
+func c13WireBuild(m *c13WMsg) proto.Message {
+	if m.K < 0 || m.K > 5 {
+		return nil
+	}
+	if m.K != 4 && !c13WireShapeOK(m.Vs, c13WireShape[m.K]) {
+		return nil
+	}
+	switch m.K {
+	case 0:
+		return &handshakepb.HandshakeReq{PeerType: string(m.Vs[0].B), Token: string(m.Vs[1].B), Sig: m.Vs[2].B}
+	case 1:
+		return &handshakepb.HandshakeResp{ObservedAddress: m.Vs[0].B, PeerType: string(m.Vs[1].B)}
+	case 2:
+		return &discoverypb.PeerInfo{EthAddress: m.Vs[0].B, Underlay: m.Vs[1].B}
+	case 3:
+		return c13BidProto(m.Vs)
+	case 4:
+		pl := &discoverypb.PeerList{}
+		for _, p := range m.Ps {
+			if !c13WireShapeOK(p, c13WireShape[2]) {
+				return nil
+			}
+			pl.Peers = append(pl.Peers, &discoverypb.PeerInfo{EthAddress: p[0].B, Underlay: p[1].B})
+		}
+		return pl
+	default:
+		pc := &preconfpb.PreConfirmation{Digest: m.Vs[0].B, Signature: m.Vs[1].B, ProviderAddress: m.Vs[2].B}
+		if m.HasBid {
+			if !c13WireShapeOK(m.Bid, c13WireShape[3]) {
+				return nil
+			}
+			pc.Bid = c13BidProto(m.Bid)
+		}
+		return pc
+	}
+}
+
+func c13WireFields(k int, pm proto.Message) *c13WMsg {
+	m := &c13WMsg{K: k}
+	switch x := pm.(type) {
+	case *handshakepb.HandshakeReq:
+		m.Vs = []c13FV{{B: []byte(x.PeerType)}, {B: []byte(x.Token)}, {B: x.Sig}}
+	case *handshakepb.HandshakeResp:
+		m.Vs = []c13FV{{B: x.ObservedAddress}, {B: []byte(x.PeerType)}}
+	case *discoverypb.PeerInfo:
+		m.Vs = []c13FV{{B: x.EthAddress}, {B: x.Underlay}}
+	case *preconfpb.Bid:
+		m.Vs = c13BidVals(x)
+	case *discoverypb.PeerList:
+		for _, p := range x.Peers {
+			m.Ps = append(m.Ps, []c13FV{{B: p.GetEthAddress()}, {B: p.GetUnderlay()}})
+		}
+	case *preconfpb.PreConfirmation:
+		m.Vs = []c13FV{{B: x.Digest}, {B: x.Signature}, {B: x.ProviderAddress}}
+		if x.Bid != nil {
+			m.HasBid = true
+			m.Bid = c13BidVals(x.Bid)
+		}
+	}
+	return m
+}
+
+func c13CoqVals(vs []c13FV) string {
+	var it []string
+	for _, v := range vs {
+		if v.I {
+			it = append(it, coqApp("VI", coqZ(v.Z)))
+		} else {
+			it = append(it, coqApp("VB", coqBytes(v.B)))
+		}
+	}
+	return coqList(it)
+}
+
+func c13CoqWMsg(m *c13WMsg) string {
+	switch m.K {
+	case 4:
+		var ps []string
+		for _, p := range m.Ps {
+			ps = append(ps, c13CoqVals(p))
+		}
+		return coqApp("MPeers", coqList(ps))
+	case 5:
+		return coqApp("MPreconf", coqRecord("pc_bid", coqOpt(m.HasBid, c13CoqVals(m.Bid)), "pc_rest", c13CoqVals(m.Vs)))
+	default:
+		return coqApp("MFlat", coqN(uint64(m.K)), c13CoqVals(m.Vs))
+	}
+}
+
+func c13WireEnc(e *vfEnv, class string, in c13In) {
+	if in.WM == nil {
+		return
+	}
+	pm := c13WireBuild(in.WM)
+	if pm == nil {
+		return
+	}
+	type wobs struct {
+		Got  []byte
+		OK   bool
+		Back *c13WMsg
+	}
+	var o wobs
+	func() {
+		defer func() {
+			if recover() != nil {
+				o = wobs{Got: []byte("panic"), OK: true} // a mismatch
+			}
+		}()
+		b, err := proto.MarshalOptions{Deterministic: true}.Marshal(pm)
+		if err != nil {
+			return
+		}
+		if b == nil {
+			b = []byte{}
+		}
+		o.Got, o.OK = b, true
+		// the plain Marshal the production code uses must give the same bytes for these types
+		if b2, err2 := proto.Marshal(pm); err2 != nil || !bytes.Equal(b2, b) {
+			o.Got = append([]byte("nondeterministic:"), b2...)
+		}
+		fresh := c13WireNew(in.WM.K)
+		if proto.Unmarshal(b, fresh) == nil {
+			o.Back = c13WireFields(in.WM.K, fresh)
+		}
+	}()
+	e.Emit(class, in, o, func(id int) string {
+		back := "None"
+		if o.Back != nil {
+			back = coqOpt(true, c13CoqWMsg(o.Back))
+		}
+		return coqRecord("id", coqN(uint64(id)), "cb", coqApp("WireEnc", c13CoqWMsg(in.WM), coqOpt(o.OK, coqBytes(o.Got)), back))
+	})
+}
+
+func c13WireDec(e *vfEnv, class string, in c13In) {
+	k := in.WK
+	if k < 0 || k > 5 {
+		return
+	}
+	type dobs struct {
+		Acc    bool
+		Panic  bool
+		Fields *c13WMsg
+	}
+	var o dobs
+	func() {
+		defer func() {
+			if recover() != nil {
+				o = dobs{Panic: true}
+			}
+		}()
+		fresh := c13WireNew(k)
+		if proto.Unmarshal(in.Stream, fresh) == nil {
+			o.Acc = true
+			o.Fields = c13WireFields(k, fresh)
+		}
+	}()
+	e.Emit(class, in, o, func(id int) string {
+		got := "None"
+		if o.Panic {
+			// neither accepted nor refused: a message of another kind can never agree
+			got = coqOpt(true, coqApp("MFlat", coqN(99), coqList(nil)))
+		} else if o.Acc {
+			got = coqOpt(true, c13CoqWMsg(o.Fields))
+		}
+		return coqRecord("id", coqN(uint64(id)), "cb", coqApp("WireDec", coqN(uint64(k)), coqBytes(in.Stream), got))
+	})
+}
+
+var c13WireStrings = []string{"", "", "bidder", "provider", "bootnode", "0xabcdef", "1000000000000000000", "世界 ✓",
+	"\xff\xfe", "a\xc3", "token-with-some-length-beyond-one-byte-of-varint-length-prefix................................" +
+		"......................................................................"}
+
+func c13WireBytes(r *rand.Rand, str bool) []byte {
+	switch r.Intn(6) {
+	case 0:
+		return nil
+	case 1:
+		if str {
+			return []byte(c13WireStrings[r.Intn(len(c13WireStrings))])
+		}
+		return c13RandBytes(r, 20+r.Intn(46))
+	case 2:
+		if str && r.Intn(4) != 0 {
+			return []byte(c13WireStrings[2+r.Intn(6)])
+		}
+		return c13RandBytes(r, r.Intn(200))
+	default:
+		if str {
+			return []byte(c13WireStrings[r.Intn(8)])
+		}
+		return c13RandBytes(r, r.Intn(40))
+	}
+}
+
+var c13WireInts = []int64{0, 0, 1, -1, 127, 128, 300, 16383, 16384, 1 << 31, -(1 << 31), 1<<63 - 1, -(1 << 63), 1700000000000}
+
+func c13WireInt(r *rand.Rand) int64 {
+	if r.Intn(3) == 0 {
+		return int64(r.Uint64())
+	}
+	return c13WireInts[r.Intn(len(c13WireInts))]
+}
+
+var c13WireIsStr = [][]bool{{true, true, false}, {false, true}, {false, false},
+	{true, true, false, false, false, false, false}, nil, {false, false, false}}
+
+func c13WireVals(r *rand.Rand, k int) []c13FV {
+	var vs []c13FV
+	for i, isInt := range c13WireShape[k] {
+		if isInt {
+			vs = append(vs, c13FV{I: true, Z: c13WireInt(r)})
+		} else {
+			vs = append(vs, c13FV{B: c13WireBytes(r, c13WireIsStr[k][i])})
+		}
+	}
+	return vs
+}
+
+func c13GenWMsg(r *rand.Rand) *c13WMsg {
+	k := r.Intn(6)
+	m := &c13WMsg{K: k}
+	switch k {
+	case 4:
+		for n := r.Intn(5); n > 0; n-- {
+			m.Ps = append(m.Ps, c13WireVals(r, 2))
+		}
+	case 5:
+		m.Vs = c13WireVals(r, 5)
+		if r.Intn(4) != 0 {
+			m.HasBid = true
+			m.Bid = c13WireVals(r, 3)
+			if r.Intn(5) == 0 {
+				m.Bid = []c13FV{{}, {}, {I: true}, {}, {}, {I: true}, {I: true}} // a set but empty bid
+			}
+		}
+	default:
+		m.Vs = c13WireVals(r, k)
+	}
+	return m
+}
+
+// hostile inputs for Unmarshal: valid encodings cut, flipped, extended with unknown fields,
+// repeated fields (last wins / merge), known numbers with other wire types, overlong and
+// overflowing varints, bad field numbers, reserved wire types, lengths beyond the input
+func c13WireHostile(r *rand.Rand, k int) []byte {
+	valid := func(kk int) []byte {
+		for {
+			m := c13GenWMsg(r)
+			if m.K != kk {
+				continue
+			}
+			if b, err := proto.Marshal(c13WireBuild(m)); err == nil {
+				return b
+			}
+		}
+	}
+	extra := func() []byte {
+		num := protowire.Number(1 + r.Intn(9))
+		switch r.Intn(12) {
+		case 0:
+			return protowire.AppendVarint(protowire.AppendTag(nil, num, protowire.VarintType), r.Uint64()>>uint(r.Intn(64)))
+		case 1:
+			return protowire.AppendFixed32(protowire.AppendTag(nil, num, protowire.Fixed32Type), r.Uint32())
+		case 2:
+			return protowire.AppendFixed64(protowire.AppendTag(nil, num, protowire.Fixed64Type), r.Uint64())
+		case 3:
+			return c13LenField(num, c13WireBytes(r, r.Intn(2) == 0))
+		case 4:
+			return c13LenField(num, valid(r.Intn(6))) // a nested message where one may be expected
+		case 5:
+			return []byte{byte(num)<<3 | 0, 0x80, 0x80, 0x00} // non-minimal varint
+		case 6:
+			return append([]byte{byte(num)<<3 | 0}, 0xff, 0xff, 0xff, 0xff, 0xff, 0xff, 0xff, 0xff, 0xff, byte(r.Intn(4))) // 10 bytes, maybe overflowing
+		case 7:
+			return protowire.AppendVarint(protowire.AppendVarint(nil, uint64(r.Intn(8))), 1) // field number 0
+		case 8:
+			return protowire.AppendVarint(protowire.AppendVarint(nil, uint64(1<<29+r.Intn(5)-2)<<3), 1) // around the largest field number
+		case 9:
+			return []byte{byte(num)<<3 | byte(6+r.Intn(2)), 1} // reserved wire types
+		case 10:
+			return protowire.AppendVarint(protowire.AppendTag(nil, num, protowire.BytesType), uint64(1+r.Intn(300))) // length beyond the input
+		default:
+			if r.Intn(4) == 0 {
+				return []byte{byte(num)<<3 | byte(3+r.Intn(2))} // start / end group tag
+			}
+			return protowire.AppendVarint(protowire.AppendTag(nil, protowire.Number(10+r.Intn(1000000)), protowire.VarintType), uint64(r.Intn(1000)))
+		}
+	}
+	switch r.Intn(8) {
+	case 0:
+		return c13RandBytes(r, r.Intn(12))
+	case 1:
+		b := valid(k)
+		if len(b) > 0 {
+			b = b[:r.Intn(len(b))]
+		}
+		return b
+	case 2:
+		b := append([]byte{}, valid(k)...)
+		if len(b) > 0 {
+			b[r.Intn(len(b))] ^= byte(1 << uint(r.Intn(8)))
+		}
+		return b
+	case 3:
+		return append(append([]byte{}, valid(k)...), valid(k)...) // every field twice: last wins, lists append, messages merge
+	case 4:
+		return valid(r.Intn(6)) // the encoding of another kind
+	default:
+		var b []byte
+		for n := 1 + r.Intn(4); n > 0; n-- {
+			if r.Intn(3) == 0 {
+				b = append(b, valid(k)...)
+			} else {
+				b = append(b, extra()...)
+			}
+		}
+		return b
+	}
+}
+
 func TestVerifC13(t *testing.T) {
 	e := vfOpen(t, 100)
 	defer e.Close()
@@ -1527,6 +1915,10 @@ func TestVerifC13(t *testing.T) {
 			c13Abandon(e, class, in)
 		case 4:
 			c13Stalled(e, class, in)
+		case 5:
+			c13WireEnc(e, class, in)
+		case 6:
+			c13WireDec(e, class, in)
 		default:
 			if len(in.Pattern) == 0 {
 				in.Pattern = []int{1}
@@ -1662,6 +2054,25 @@ func TestVerifC13(t *testing.T) {
 		default:
 			run("hostile", c13GenHostile(r))
 		}
+	}
+
+	// the protobuf wire format of the protocol messages against model/ProtoWire.v
+	for k := 0; k < 6; k++ {
+		zero := &c13WMsg{K: k}
+		if k != 4 {
+			for _, isInt := range c13WireShape[k] {
+				zero.Vs = append(zero.Vs, c13FV{I: isInt})
+			}
+		}
+		run("wire-marshal", c13In{Kind: 5, WM: zero})
+		run("wire-unmarshal", c13In{Kind: 6, WK: k, Stream: []byte{}})
+	}
+	for i := 0; i < e.N*2/5; i++ {
+		run("wire-marshal", c13In{Kind: 5, WM: c13GenWMsg(r)})
+	}
+	for i := 0; i < e.N*3/4; i++ {
+		k := r.Intn(6)
+		run("wire-unmarshal", c13In{Kind: 6, WK: k, Stream: c13WireHostile(r, k)})
 	}
 
 	// frame sizes around the varint boundaries of the length field and around the 8 MiB limit
